@@ -412,6 +412,23 @@ func bvBin(op Op, a, b *Term) *Term {
 		if a == b {
 			return mkBV(w, 0)
 		}
+		// (p ^ k) ^ k = p
+		if a.op == OpBXor {
+			if a.a == b {
+				return a.b
+			}
+			if a.b == b {
+				return a.a
+			}
+		}
+		if b.op == OpBXor {
+			if b.a == a {
+				return b.b
+			}
+			if b.b == a {
+				return b.a
+			}
+		}
 	case OpShl, OpLShr, OpAShr:
 		if b.isConst() && b.k == 0 {
 			return a
